@@ -462,10 +462,13 @@ func defaultResp(tag string) c02Resp {
 
 func runC02(c *fw.Ctx) {
 	runSpxFamily(c, "C02")
-	if vsched.DefaultPolicy == 0 {
-		runC02Hist(c)
-	}
-	runC02Download(c)
+	// last: if the time budget runs out it is the long histories that are cut short
+	defer func() {
+		if vsched.DefaultPolicy == 0 {
+			runC02Hist(c)
+		}
+		runC02Download(c)
+	}()
 	thorough := c.Tier == "thorough"
 	var item int64
 	sampled := 0
